@@ -1,5 +1,6 @@
 import Model.Notifier
 import Model.Mutex
+import Model.RWMutex
 /-! C17, concurrent use: one notifier, its mutex, several goroutines.  Core Lean only.
 
 Every exported method of `notifier.Notifier` is a sequence of *lock brackets* on the notifier's `sync.RWMutex`
@@ -106,6 +107,16 @@ def sys : Mutex.Sys NSt ROp PC RRes where
   done := fun k => match k with
     | .ret r => some r
     | _ => none
+
+/-- the brackets the Go code executes under the READ half of its `sync.RWMutex` (`RLock` / `RUnlock`): `Enabled()`,
+    `BatchLevel()` and the ancestor walk of `NotifyWithData`; every other bracket takes the mutex (`Lock`), also the
+    copy-out half of `RegisterFromNotifier`.  On the machine `RW.exec sys isRead` (Model/RWMutex.lean) the micro-steps of
+    several read brackets interleave; `Mutex.exec sys true` is the coarser machine that treats them as exclusive. -/
+def isRead : ROp → Bool
+  | .enabledQ => true
+  | .levelQ => true
+  | .collect _ => true
+  | _ => false
 
 /-! ### the unlocked phase -/
 
